@@ -270,7 +270,7 @@ func (c *Ctx) subHandlers() (self, other *ssa.Function) {
 		if !core.InPkg(fn, "server") || fn.Signature.Recv() == nil || !isPtrToNamed(fn.Signature.Recv().Type(), "Topic") {
 			continue
 		}
-		if len(c.parsedModeCells(fn)) != 1 || len(core.CallsTo(fn, subsCreate)) == 0 {
+		if len(c.requestedModes(fn)) != 1 || len(core.CallsTo(fn, subsCreate)) == 0 {
 			continue
 		}
 		if c.callsDeep(fn, ownerChange, 2) {
@@ -299,8 +299,7 @@ func (c *Ctx) checkOtherUserGuards() {
 	r := c.R
 	_, other := c.subHandlers()
 	r.Func(fk(other))
-	cell := c.parsedModeCells(other)[0]
-	ld := isLoadOfCell(cell)
+	ld := c.requestedModes(other)[0]
 	unset := c.konst("server/store/types", "ModeUnset")
 	isSharer := c.E().modeMethod("IsSharer")
 	isAdmin := c.E().modeMethod("IsAdmin")
@@ -392,8 +391,112 @@ func (c *Ctx) checkGrantRestored() {
 			"", "with a previous (soft-deleted) subscription present the grant can be set to something other than the stored ModeGiven"+posOf(c, w)+": unsubscribe/resubscribe escapes a ban")
 	}
 	if n == 0 {
+		n = c.checkGrantRestoredViaHelper(self, subsGet, subGiven, pudGiven)
+	}
+	if n == 0 {
 		r.Fail("C07.3-previous-grant-restored", fk(self)+": Subs.Get(.., keepDeleted=true)", "-", "the self-subscription handler no longer looks up the soft-deleted subscription")
 	}
+}
+
+// checkGrantRestoredViaHelper: the lookup of the soft-deleted subscription was extracted into a
+// helper returning (subscription, previous grant, ...): inside the helper every return with a
+// possibly non-nil subscription returns that subscription's ModeGiven; in the handler the first
+// assignment of the grant after the call is the helper's mode result.
+func (c *Ctx) checkGrantRestoredViaHelper(self *ssa.Function, subsGet *types.Func, subGiven, pudGiven *types.Var) int {
+	r := c.R
+	n := 0
+	core.AllInstrs(self, func(in ssa.Instruction) {
+		outer, ok := in.(*ssa.Call)
+		if !ok {
+			return
+		}
+		h := outer.Call.StaticCallee()
+		if h == nil || h == self || !core.InModule(h) {
+			return
+		}
+		for _, ci := range core.CallsTo(h, subsGet) {
+			call := ci.(*ssa.Call)
+			args := core.CallArgs(&call.Call)
+			k, ok := core.Strip(args[len(args)-1]).(*ssa.Const)
+			if !ok || k.Value == nil || k.Value.Kind() != constant.Bool || !constant.BoolVal(k.Value) {
+				continue
+			}
+			// result indices of the helper: the subscription and the mode
+			subIdx, modeIdx := -1, -1
+			res := h.Signature.Results()
+			for i := 0; i < res.Len(); i++ {
+				if isPtrToNamed(res.At(i).Type(), "Subscription") {
+					subIdx = i
+				}
+				if isModeType(res.At(i).Type()) {
+					modeIdx = i
+				}
+			}
+			if modeIdx < 0 {
+				continue
+			}
+			n++
+			construct := fk(self) + ": Subs.Get(.., keepDeleted=true) via " + fk(h)
+			isSub := func(v ssa.Value) bool { return core.Derives(v, errResultOf(call, 0), false) }
+			bad := false
+			walk := core.NilWalk(h, nil, nil, nil, func(x ssa.Instruction, f core.NilFacts) {
+				ret, ok := x.(*ssa.Return)
+				if !ok {
+					return
+				}
+				// is the looked-up subscription possibly non-nil here?
+				foundPossible := true
+				for v, isNil := range f {
+					if isSub(v) && isNil {
+						foundPossible = false
+					}
+				}
+				if subIdx >= 0 && core.IsNil(ret.Results[subIdx]) {
+					foundPossible = false
+				}
+				if ei := errIndex(h.Signature); ei >= 0 {
+					if kn, nn := core.Nilness(ret.Results[ei], f); kn && !nn {
+						return // error return
+					}
+				}
+				if foundPossible && !core.IsFieldLoad(subGiven)(ret.Results[modeIdx]) {
+					bad = true
+				}
+			})
+			r.Check(!bad && !walk.Overflow, "C07.3-previous-grant-restored", construct+": found => helper returns the stored ModeGiven", c.pos(call), "",
+				"with a previous (soft-deleted) subscription present the helper can return a grant other than the stored ModeGiven: unsubscribe/resubscribe escapes a ban")
+			isRes := func(v ssa.Value) bool {
+				ex, ok := core.Strip(v).(*ssa.Extract)
+				return ok && ex.Tuple == ssa.Value(outer) && ex.Index == modeIdx
+			}
+			isRestore := func(x ssa.Instruction) bool {
+				st, ok := x.(*ssa.Store)
+				if !ok {
+					return false
+				}
+				f, _ := core.FieldOfAddr(st.Addr)
+				return f == pudGiven && core.Derives(st.Val, isRes, true)
+			}
+			isDefault := func(x ssa.Instruction) bool {
+				st, ok := x.(*ssa.Store)
+				if !ok {
+					return false
+				}
+				f, _ := core.FieldOfAddr(st.Addr)
+				return f == pudGiven && !core.Derives(st.Val, isRes, true)
+			}
+			found, w := core.PathAvoiding(self, outer, isDefault, isRestore, nil)
+			hasRestore := false
+			core.AllInstrs(self, func(x ssa.Instruction) {
+				if isRestore(x) {
+					hasRestore = true
+				}
+			})
+			r.Check(!found && hasRestore, "C07.3-previous-grant-restored", construct+": grant := helper's result before any default", c.pos(outer), "",
+				"after the lookup the grant can be set to something other than the looked-up previous grant"+posOf(c, w)+": unsubscribe/resubscribe escapes a ban")
+		}
+	})
+	return n
 }
 
 func (c *Ctx) checkJoinBit() {
